@@ -192,7 +192,14 @@ def direct_wallet(a):
     nets = NETS[net]
     try:
         r = wallet_op(w, op, args)
-    except Exception:  # noqa
+    except Exception as e:  # noqa
+        # the legal domain must be served: every (major, minor) in [0, 2^32-1]^2 and every 8-byte payment id
+        if op in (2, 5) and all(0 <= int(v) <= 2**32 - 1 for v in args):
+            return "sub-address indexes %s within [0, 2^32-1] refused with %s" % (list(map(int, args)), type(e).__name__)
+        if op == 3 and len(args[0]) == 8:
+            return "8-byte payment id %s refused with %s" % (args[0].hex(), type(e).__name__)
+        if op == 1:
+            return "primary address refused with %s" % type(e).__name__
         return None
     if op in (1, 2, 3, 5):
         try:
@@ -245,7 +252,10 @@ def direct_addr_encode(a):
         return None
     d = impl_addr_decode([s, net, payid])
     want = ps[-32:] + pv[-32:]
-    return None if d == want else "address decodes to %s, not to the encoded keys" % d.hex()
+    if d != want:
+        return "address decodes to %s, not to the encoded keys" % d.hex()
+    exp = ref_b58x(ref_addr_bytes(net[0], ps[-32:], pv[-32:], payid or b""))
+    return None if s == exp else "address %s is not the scheme's definition %s" % (s, exp)
 
 
 FUNCS = {
@@ -280,7 +290,8 @@ def some_ops(rng, ctx, full=False):
     ops = [(0, []), (1, []), (4, [])]
     ops.append((2, [rng.choice(IDX), rng.choice(IDX)]))
     ops.append((5, [rng.choice(IDX + [rng.randrange(2**32)]), rng.choice(IDX + [rng.randrange(2**32)])]))
-    ops.append((3, [rb(rng, 8)]))
+    ops.append((3, [rng.choice([rb(rng, 8), rb(rng, 8), bytes(8), b"\xff" * 8, bytes(1) + rb(rng, 7), rb(rng, 7) + bytes(1),
+                                bytes(7) + b"\x01", b"\x80" + bytes(7)])]))
     if full:
         ops.append((2, [rng.choice(IDX_BAD), rng.choice(IDX)]))
         ops.append((2, [rng.choice(IDX), rng.choice(IDX_BAD)]))
@@ -416,7 +427,7 @@ def generate(ctx):
         neti = rng.randrange(3)
         kind = rng.randrange(3)
         net = bytes([NETS[neti][kind]])
-        payid = rb(rng, 8) if kind == 1 else None
+        payid = rng.choice([rb(rng, 8), rb(rng, 8), bytes(8), b"\xff" * 8, bytes(4) + rb(rng, 4), rb(rng, 4) + bytes(4)]) if kind == 1 else None
         ctx.run("xmr_addr_encode", [ps, pv, net, payid], "valid")
         ctx.run("xmr_addr_encode", [b"\x00" + ps, pv, net, payid], "prefixed-key")
         s = ref_b58x(ref_addr_bytes(net[0], ps, pv, payid or b""))
